@@ -129,6 +129,29 @@ def repoint_scenario(rng):
     return s
 
 
+def em_source_scenario(rng):
+    """An edge-multi channel as group-trigger SOURCE of a channel without a trigger of its own (and of an edge-multi
+    channel that never fires): edge-multi reports an edge found close to the end of a block only in the next cycle, with
+    a frame inside the previous block, so the receivers' records reach back into retained history."""
+    import c08
+    s = c08.random_scen(rng)
+    while len([st for st in s["steps"] if st["k"] == "block"]) < 3:
+        s = c08.random_scen(rng)
+    total = len(s["data"][0])
+    t = s["trig"][0]
+    off = streamgen.trig_off()
+    s["nchan"] = 3
+    s["data"] = [s["data"][0], [(2000 + (i * 7) % 31) for i in range(total)], [1500] * total]
+    s["trig"] = [t, off, t]
+    steps = [{"k": "trig", "chans": [0], "t": t}, {"k": "trig", "chans": [2], "t": t},
+             {"k": "conn", "op": "add", "s": 0, "r": 1}, {"k": "conn", "op": "add", "s": 0, "r": 2}]
+    steps += [st for st in s["steps"] if st["k"] == "block"]
+    s["steps"] = steps
+    s["oneblock"] = False
+    s["origin"] = "edge-multi-source"
+    return s
+
+
 GR = [os.path.join(vlib.HARNESS, "root", f) for f in ("common_test.go", "lifecycle_test.go", "requests_test.go", "groupreport_test.go")]
 
 
@@ -175,6 +198,9 @@ def run(ctx):
     scens += [conn_scenario(rng) for _ in range(n)]
     nm = 40 if q else 2500
     scens += [multi_rx_scenario(rng) for _ in range(nm)]
+    ne = 60 if q else 2500
+    scens += [em_source_scenario(rng) for _ in range(ne)]
+    ctx.notes["scenarios_edge_multi_source"] = ne
     nr = 60 if q else 3000
     scens += [repoint_scenario(rng) for _ in range(nr)]
     ctx.notes["scenarios_repoint"] = nr
